@@ -25,7 +25,7 @@ class Ein(Case):
     def __init__(s, T, lists, ext, call=None, tag='es', out_idx=None, extra_tmpl='', fname='einsum'):
         """lists: index lists per operand; ext: dict index -> extent; out_idx: explicit output order (OIndex)"""
         s.T = T; s.lists = lists; s.ext = ext
-        names = 'abcdefgh'[:len(lists)]
+        names = 'abcefghk'[:len(lists)]
         free = free_indices(lists) if out_idx is None else list(out_idx)
         s.free = free
         oext = [ext[i] for i in free]; osz = prod(oext) if oext else 1
@@ -61,7 +61,12 @@ class Ein(Case):
              f' {loops_f}{{ {T} s=0; {loops_s}{{ {body} }} o[{oo}]=s; }}')
         sid = '_'.join(''.join(map(str, l)) for l in lists) + ('_o' + ''.join(map(str, out_idx)) if out_idx is not None else '')
         eid = 'x'.join(str(ext[i]) for i in allidx)
-        Case.__init__(s, f'{tag}_{SHORT[T]}_{sid}_{eid}', args + [o, d], k, r, desc=f'{callexpr} extents {ext}')
+        # topology class: some operand shares no index with the operands before it (disconnected prefix)
+        seen_ = set(lists[0]); dp = False
+        for l in lists[1:]:
+            if len(lists) > 2 and not (set(l) & seen_): dp = True
+            seen_ |= set(l)
+        Case.__init__(s, f'{tag}_{SHORT[T]}_{sid}_{eid}' + ('_dp' if dp else ''), args + [o, d], k, r, desc=f'{callexpr} extents {ext}')
         s.dom = dom_for(T); s.nsum = prod([ext[i] for i in summed]) if summed else 1
         s.depth_limit = 2 * s.nsum * len(lists) + 4
 
